@@ -20,12 +20,12 @@ CONF = {
  "C06": {"gen": ["Precedences", "Operators", "ParseFns"], "streams": [("parse-tok", "full"), ("render-gen", "full")],
          "assume": ["float64 values are exact dyadic rationals in the model; regexp (~=) is outside the model",
                     "known finding: a bool left operand coerces the right one (true + 1); pinned by the repository's own test Test_Render_Bool_Concat"]},
- "C07": {"gen": ["Truthy", "Operators"], "streams": [("render-gen", "full")], "assume": ["nil pointers are outside the model's value universe (oracle only)"]},
+ "C07": {"gen": ["Truthy", "Operators"], "streams": [("render-gen", "full"), ("render-struct", "full")], "assume": ["typed nil pointers are in the model (Val.ptr _ none, stream render-struct); other nil-able kinds (nil func, nil chan) are oracle only"]},
  "C08": {"gen": ["Iterators"], "streams": [("parse-tok", "full"), ("render-gen", "full")], "assume": ["Go map iteration order is the licensed variation; the correspondence stream iterates maps of one entry"]},
  "C09": {"gen": [], "streams": [("render-gen", "full")], "assume": []},
  "C10": {"gen": ["HelperKeys"], "streams": [("ctx-hist", "full")], "assume": []},
- "C11": {"gen": [], "streams": [("parse-tok", "full")],
-         "assume": ["PARTIAL: struct fields / methods are reflected Go values outside the model; navigation is decided by the oracle (self-describing data)"]},
+ "C11": {"gen": [], "streams": [("parse-tok", "full"), ("render-struct", "full")],
+         "assume": ["PARTIAL: struct fields and pointers are modelled (Val.struct / Val.ptr, stream render-struct); methods, embedded structs and the index-then-member rebinding are reflected Go behaviour outside the model: for them navigation is decided by the oracle (self-describing data)"]},
  "C12": {"gen": [], "streams": [("render-gen", "full")], "assume": ["the signature family of the model is the harness' closed helper family; the full signature product is enumerated by the oracle"]},
  "C13": {"gen": ["ConcFacts"], "streams": [("render-gen", "full")],
          "assume": ["PARTIAL by nature: Go's map-order randomisation is quantified over (any permutation) in the model and sampled (r repetitions) by the oracle"]},
